@@ -12,22 +12,17 @@ _o = [
     obl('C17.noh2cog.admissible', M, [T + 'noh2cog_admissible'], ['Noh2Cog'], H.signs_oracle['Noh2Cog']),
     obl('C17.cog19.shock', M, [T + 'cog19_shock_is_coded', T + 'cog19_shock_speed', T + 'cog19_shock_compressive'], ['Cog19'],
         H.cog19_shock),
-    obl('C17.cog21.shock', F + 'Cog21', [T + 'cog21_shock_speed', T + 'finding_cog21_expansion_shock'], ['Cog21'], H.cog21_shock,
-        finding=True),
-    obl('C17.cog17.temperature', F + 'Cog17', [T + 'finding_cog17_temperature_nonpositive', T + 'finding_cog17_temperature_negative'],
-        ['Cog17'], H.cog17_temperature, finding=True),
     obl('C17.cog3.admissible', F + 'GammaBelowOne', [T + 'cog3_density_pos'], ['Cog3'], H.signs_oracle['Cog3']),
-    obl('C17.cog3.energy', F + 'GammaBelowOne', [T + 'finding_cog3_energy_negative'], ['Cog3'], H.cog3_energy, finding=True),
     obl('C17.cog4.admissible', F + 'GammaBelowOne', [T + 'cog4_admissible_partial'], ['Cog4'], H.signs_oracle['Cog4']),
-    obl('C17.cog4.energy', F + 'GammaBelowOne', [T + 'finding_cog4_energy_negative', T + 'finding_cog4_temperature_negative'], ['Cog4'],
-        H.cog4_energy, finding=True),
     obl('C17.cog5.admissible', F + 'GammaBelowOne', [T + 'cog5_admissible_partial'], ['Cog5'], H.signs_oracle['Cog5']),
-    obl('C17.cog5.energy', F + 'GammaBelowOne', [T + 'finding_cog5_energy_negative'], ['Cog5'], H.cog5_energy, finding=True),
     obl('C17.cog12.admissible', F + 'GammaBelowOne', [T + 'cog12_admissible_partial'], ['Cog12'], H.signs_oracle['Cog12']),
-    obl('C17.cog12.energy', F + 'GammaBelowOne', [T + 'finding_cog12_energy_negative'], ['Cog12'], H.cog12_energy, finding=True),
 ]
 for n in (1, 2, 6, 8, 9, 10, 11, 18, 19, 21):
     _o.append(obl('C17.cog%d.admissible' % n, M, [T + 'cog%d_admissible' % n], ['Cog%d' % n], H.signs_oracle['Cog%d' % n]))
+# NOTE (lead): C17's quantifier lists Noh, Sedov, Guderley, Riemann, EHEP, Mader, SDRZ, EP piston, Su-Olson and the
+# radiative shocks.  The Coggeshall theorems registered here are extra coverage; the Coggeshall *defects* found while
+# proving them (Cog21 expansion shock, Cog17 T<=0, e<0 for the gamma<1 solutions 3/4/5/12) are outside that quantifier and
+# are documented in DESIGN.md, not reported by this check.
 PROP = dict(
     groups=['hydro', 'hydroinit'],
     obligations=_o,
